@@ -237,8 +237,58 @@ def show_sys(rs):
     return [[show_rxn(r) for r in rs.rxns], [[k, show_subst(s)] for k, s in rs.substances.items()]]
 
 
-def mk_pred(p):
+def mk_pred(p, ret='bool'):
+    """ret: what the predicate returns for True/False — subset only looks at truthiness"""
+    if ret == 'int':
+        return lambda r: 1 if eval_pred(p, show_rxn(r)) else 0
+    if ret == 'obj':
+        return lambda r: [r] if eval_pred(p, show_rxn(r)) else None
     return lambda r: eval_pred(p, show_rxn(r))
+
+
+CONTAINERS = ['list', 'tuple', 'gen', 'filter', 'map', 'iter', 'reversed', 'dictvalues', 'ndarray', 'chain', 'deque']
+ONE_SHOT = ('gen', 'filter', 'map', 'iter', 'reversed', 'chain')
+
+
+def wrap(seq, kind):
+    """the same items in another container type / as a one-shot iterator"""
+    seq = list(seq)
+    if kind in (None, 'list'):
+        return seq
+    if kind == 'tuple':
+        return tuple(seq)
+    if kind == 'gen':
+        return (x for x in seq)
+    if kind == 'filter':
+        return filter(lambda x: True, seq)
+    if kind == 'map':
+        return map(lambda x: x, seq)
+    if kind == 'iter':
+        return iter(seq)
+    if kind == 'reversed':
+        return reversed(seq[::-1])
+    if kind == 'dictvalues':
+        return OrderedDict(enumerate(seq)).values()
+    if kind == 'ndarray':
+        import numpy as np
+        a = np.empty(len(seq), dtype=object)
+        for i, x in enumerate(seq):
+            a[i] = x
+        return a
+    if kind == 'chain':
+        import itertools
+        return itertools.chain(seq[:1], seq[1:])
+    if kind == 'deque':
+        import collections
+        return collections.deque(seq)
+    raise ValueError(kind)
+
+
+def gen_container(rng):
+    return rng.choice(CONTAINERS + ['list', 'list', 'gen', 'iter'])
+
+
+BAD_ITEMS = {'str': 'A -> B', 'none': None, 'int': 3, 'tuple': ('A', 'B')}
 
 
 def check_err(e):
@@ -452,6 +502,11 @@ class C15(Property):
         'Python object identity and mutation, not expressible in the pure model (Proofs.runOp_prefix is true by construction); decided by the '
         'history oracle, which replays every history on plain specs by the definitions and compares EVERY system of the store after every '
         'operation, and by the shared-OrderedDict oracle cases',
+        'container type of operands / arguments (list, tuple, deque, ndarray, dict values, generator, filter, map, iter, reversed, chain as right '
+        'operand of + / +=, as reaction collection of the constructor, as system collection of concatenate, as value collection of '
+        'as_per_substance_dict; dict / OrderedDict / defaultdict and list / tuple / deque / ndarray for as_per_substance_array; predicate '
+        'results of subset that are merely truthy): a Python-level notion, the model sees a list (addItems: materialise once, validate, use). '
+        'Decided by the oracle: same result, or same ValueError refusal for a non-Reaction item, as for a list of the same items',
         'per_substance_varied (dense array of all combinations of varied levels): modelled (rows in C order, ValueError/IndexError cases), '
         'no theorem; exact correspondence + oracle (every entry of every row against base / varied level)',
         'upper_conc_bounds with the default float64 dtype: driven by the correspondence only for compositions without a zero atom count '
@@ -548,7 +603,8 @@ class C15(Property):
             return {'op': kind, 'sys': spec, 'key': rng.choice(keys)}
         if kind == 'subset':
             spec = gen_sys(rng)
-            return {'op': 'subset', 'sys': spec, 'pred': gen_pred(rng, spec), 'checks': gen_checks(rng) if rng.random() < 0.3 else []}
+            return {'op': 'subset', 'sys': spec, 'pred': gen_pred(rng, spec), 'checks': gen_checks(rng) if rng.random() < 0.3 else [],
+                    'pred_ret': rng.choice(['bool', 'bool', 'int', 'obj'])}
         if kind in ('add', 'iadd', 'eq'):
             pool = rng.sample(POOL, 8)
             a = gen_sys(rng, 7, 6, pool=pool)
@@ -574,7 +630,10 @@ class C15(Property):
         if kind in ('add_rxns', 'iadd_rxns'):
             a = gen_sys(rng, 7, 6)
             pool = [k for k, _ in a['subs']] + ['X?']
-            return {'op': kind, 'a': a, 'rxns': [gen_rxn(rng, pool) for _ in range(rng.randint(0, 3))]}
+            rxns = [gen_rxn(rng, pool) for _ in range(rng.randint(0, 3))]
+            bad = rng.random() < 0.15
+            return {'op': kind, 'a': a, 'rxns': rxns, 'container': gen_container(rng),
+                    'bad_at': rng.randint(0, len(rxns)) if bad else None, 'bad_item': rng.choice(sorted(BAD_ITEMS))}
         if kind == 'concatenate':
             pool = rng.sample(POOL, 6)
             base = gen_sys(rng, 6, 5, pool=pool, unknown_p=0)
@@ -594,7 +653,7 @@ class C15(Property):
                 systems.append(s)
             if rng.random() < 0.03:
                 systems = []
-            return {'op': 'concatenate', 'systems': systems}
+            return {'op': 'concatenate', 'systems': systems, 'container': gen_container(rng)}
         if kind == 'make':
             spec = gen_sys(rng, unknown_p=0.15, dup_p=0.12, named_p=0.5)
             keys = [k for k, _ in spec['subs']]
@@ -622,7 +681,7 @@ class C15(Property):
                 arg = ['substs', l]
             else:
                 arg = ['odict', spec['subs']]
-            return {'op': 'make', 'rxns': spec['rxns'], 'substances': arg, 'checks': gen_checks(rng),
+            return {'op': 'make', 'rxns': spec['rxns'], 'substances': arg, 'checks': gen_checks(rng), 'container': gen_container(rng),
                     # sort_substances=False with a set / None would expose the hash-randomised set order
                     'sort': rng.choice([None, None, None, True, False] if arg is not None and arg[0] != 'set' else [None, None, True])}
         if kind in ('array_from_dict', 'array_from_list', 'dict_from_array', 'varied'):
@@ -635,13 +694,14 @@ class C15(Property):
                     ks.pop()
                 if rng.random() < 0.3:
                     ks.append('extra')
-                return {'op': kind, 'sys': spec, 'cont': [[k, dyadic(rng)] for k in ks], 'raise_on_unk': rng.random() < 0.5}
+                return {'op': kind, 'sys': spec, 'cont': [[k, dyadic(rng)] for k in ks], 'raise_on_unk': rng.random() < 0.5,
+                        'dict_kind': rng.choice(['OrderedDict', 'dict', 'defaultdict'])}
             if kind == 'array_from_list':
                 n = len(keys) if rng.random() < 0.75 else rng.randint(0, 13)
-                return {'op': kind, 'sys': spec, 'cont': [dyadic(rng) for _ in range(n)]}
+                return {'op': kind, 'sys': spec, 'cont': [dyadic(rng) for _ in range(n)], 'container': rng.choice(['list', 'tuple', 'ndarray', 'deque'])}
             if kind == 'dict_from_array':
                 n = len(keys) if rng.random() < 0.75 else rng.randint(0, 13)
-                return {'op': kind, 'sys': spec, 'arr': [dyadic(rng) for _ in range(n)]}
+                return {'op': kind, 'sys': spec, 'arr': [dyadic(rng) for _ in range(n)], 'container': gen_container(rng)}
             vk = rng.sample(keys, min(len(keys), rng.randint(0, 3)))
             if rng.random() < 0.1:
                 vk.append('nope')
@@ -693,6 +753,13 @@ class C15(Property):
             return {'op': 'history', 'store': store, 'ops': ops}
         raise ValueError(kind)
 
+    def model_case(self, c):
+        if not c.get('op'):
+            return None
+        if c['op'] == 'array_from_dict' and c.get('dict_kind') == 'defaultdict':
+            return dict(c, default=-77)
+        return c
+
     # ---------------------------------------------------------------- real code
     def impl(self, c):
         from chempy import ReactionSystem
@@ -700,7 +767,7 @@ class C15(Property):
         op = c['op']
         try:
             if op == 'make':
-                rxns = [mk_rxn(r) for r in c['rxns']]
+                rxns = wrap([mk_rxn(r) for r in c['rxns']], c.get('container'))
                 a = c['substances']
                 if a is None:
                     arg = None
@@ -753,7 +820,7 @@ class C15(Property):
             if op == 'subset':
                 rs, _ = mk_sys(c['sys'])
                 try:
-                    y, n = rs.subset(mk_pred(c['pred']), checks=tuple(c['checks']))
+                    y, n = rs.subset(mk_pred(c['pred'], c.get('pred_ret', 'bool')), checks=tuple(c['checks']))
                 except ValueError as e:
                     return check_err(e)
                 return dumps([show_sys(y), show_sys(n)])
@@ -770,28 +837,31 @@ class C15(Property):
                 return 'true' if a == b else 'false'
             if op in ('add_rxns', 'iadd_rxns'):
                 a, _ = mk_sys(c['a'])
-                l = [mk_rxn(r) for r in c['rxns']]
-                if op == 'add_rxns':
-                    return dumps(show_sys(a + l))
-                a += l
+                l = self._operand(c)
+                try:
+                    if op == 'add_rxns':
+                        return dumps(show_sys(a + l))
+                    a += l
+                except ValueError as e:
+                    return 'ValueError' if str(e).startswith('Need an iterable of Reaction') else check_err(e)
                 return dumps(show_sys(a))
             if op == 'concatenate':
                 systems = [mk_sys(s)[0] for s in c['systems']]
                 try:
-                    a, b = ReactionSystem.concatenate(systems)
+                    a, b = ReactionSystem.concatenate(wrap(systems, c.get('container')))
                 except StopIteration:
                     return 'StopIteration'
                 return dumps([show_sys(a), show_sys(b)])
             if op == 'array_from_dict':
                 rs, _ = mk_sys(c['sys'])
-                d = OrderedDict((k, frac(v)) for k, v in c['cont'])
+                d = self._dict(c)
                 return show_rat_list(list(rs.as_per_substance_array(d, dtype=object, raise_on_unk=c['raise_on_unk'])))
             if op == 'array_from_list':
                 rs, _ = mk_sys(c['sys'])
-                return show_rat_list(list(rs.as_per_substance_array([frac(v) for v in c['cont']], dtype=object)))
+                return show_rat_list(list(rs.as_per_substance_array(wrap([frac(v) for v in c['cont']], c.get('container')), dtype=object)))
             if op == 'dict_from_array':
                 rs, _ = mk_sys(c['sys'])
-                d = rs.as_per_substance_dict([frac(v) for v in c['arr']])
+                d = rs.as_per_substance_dict(wrap([frac(v) for v in c['arr']], c.get('container')))
                 return dumps([[k, show_rat(v)] for k, v in d.items()])
             if op == 'substance_index':
                 rs, _ = mk_sys(c['sys'])
@@ -834,6 +904,25 @@ class C15(Property):
             return exc_name(e)
         return '!unknown-op'
 
+    def _operand(self, c):
+        """right operand of + / +=: the reactions (with an optional non-Reaction item) in the case's container type"""
+        items = [mk_rxn(r) for r in c['rxns']]
+        if c.get('bad_at') is not None:
+            items.insert(c['bad_at'], BAD_ITEMS[c.get('bad_item', 'str')])
+        return wrap(items, c.get('container'))
+
+    def _dict(self, c):
+        import collections
+        items = [(k, frac(v)) for k, v in c['cont']]
+        kind = c.get('dict_kind', 'OrderedDict')
+        if kind == 'dict':
+            return dict(items)
+        if kind == 'defaultdict':
+            d = collections.defaultdict(lambda: Fraction(-77))   # a missing key is CREATED, not refused (documented use in upper_conc_bounds)
+            d.update(items)
+            return d
+        return OrderedDict(items)
+
     def same(self, c, io, mo):
         op = c['op']
         if op == 'upper_bounds':
@@ -851,6 +940,12 @@ class C15(Property):
         if c.get('oracle_only') == 'concat_shared':
             return self._oracle_concat_shared(c)
         op = c['op']
+        if c.get('container') not in (None, 'list'):
+            # the container type of an operand / argument must not matter: same result (or same refusal) as for a list
+            as_list = dict(c, container='list')
+            got, ref = self.impl(c), self.impl(as_list)
+            if got != ref:
+                return '%s with a %s gives %s, with a list of the same items %s' % (op, c['container'], got[:160], ref[:160])
         if op == 'split':
             return self._oracle_split(c)
         if op == 'categorize':
@@ -929,14 +1024,27 @@ class C15(Property):
             return self._sum_ok(S, a, b)
         if op in ('add_rxns', 'iadd_rxns'):
             A, _ = mk_sys(c['a'])
-            l = [mk_rxn(r) for r in c['rxns']]
-            if op == 'add_rxns':
-                S = A + l
-            else:
-                S = A
-                S += l
+            l = self._operand(c)
+            kind = c.get('container', 'list')
+            try:
+                if op == 'add_rxns':
+                    S = A + l
+                else:
+                    S = A
+                    S += l
+            except ValueError as e:
+                if c.get('bad_at') is None:
+                    return '%s refused a %s of Reaction instances: %s' % (op, kind, e)
+                if show_sys(A) != [c['a']['rxns'], c['a']['subs']]:
+                    return 'a refused += left the system modified'
+                return None
+            if c.get('bad_at') is not None:
+                return '%s accepted a %s holding a non-Reaction item (%r)' % (op, kind, c.get('bad_item'))
             if [show_rxn(r) for r in S.rxns] != c['a']['rxns'] + c['rxns']:
-                return 'sum with a reaction list does not hold exactly the reactions of both'
+                return 'sum with a %s of %d reactions holds %d reactions, expected %d (left operand) + %d' % (
+                    kind, len(c['rxns']), S.nr, len(c['a']['rxns']), len(c['rxns']))
+            if False:
+                return ''
             if [[k, show_subst(s)] for k, s in S.substances.items()] != c['a']['subs']:
                 return 'sum with a reaction list changed the substances'
             return None
@@ -1070,7 +1178,7 @@ class C15(Property):
             sub = [spec['rxns'][i] for i in idx]
             return failing_checks(sub, [k for k in keys if any(k in s_keys(r) for r in sub)]) & bad
         try:
-            y, n = rs.subset(mk_pred(c['pred']), checks=tuple(c['checks']))
+            y, n = rs.subset(mk_pred(c['pred'], c.get('pred_ret', 'bool')), checks=tuple(c['checks']))
         except ValueError as e:
             return None if fails(yes_i) or fails(no_i) else 'subset raised %s although both halves pass the requested checks' % e
         if fails(yes_i) or fails(no_i):
@@ -1102,7 +1210,7 @@ class C15(Property):
         if not c['systems']:
             return None
         systems = [mk_sys(s)[0] for s in c['systems']]
-        a, b = ReactionSystem.concatenate(systems)
+        a, b = ReactionSystem.concatenate(wrap(systems, c.get('container')))
         specs = [[s['rxns'], s['subs']] for s in c['systems']]
         want_a, want_b = sp_concat(specs)
         if show_sys(a)[0] != want_a[0]:
@@ -1204,11 +1312,14 @@ class C15(Property):
         keys = [k for k, _ in c['sys']['subs']]
         op = c['op']
         if op == 'array_from_dict':
-            d = OrderedDict((k, frac(v)) for k, v in c['cont'])
-            missing = [k for k in keys if k not in d]
-            unk = [k for k in d if k not in keys]
+            d = self._dict(c)
+            given = OrderedDict((k, frac(v)) for k, v in c['cont'])
+            dd = c.get('dict_kind') == 'defaultdict'            # a defaultdict supplies its default for a missing substance
+            missing = [] if dd else [k for k in keys if k not in given]
+            unk = [k for k in given if k not in keys]
             try:
                 arr = list(rs.as_per_substance_array(d, dtype=object, raise_on_unk=c['raise_on_unk']))
+                d = dict(given) if not dd else dict([(k, Fraction(-77)) for k in keys] + list(given.items()))
             except KeyError:
                 return None if missing or (unk and c['raise_on_unk']) else 'as_per_substance_array raised KeyError on a complete dict'
             if missing or (unk and c['raise_on_unk']):
@@ -1229,7 +1340,7 @@ class C15(Property):
                         return None
                     return 'as_per_substance_array accepted a sequence of the wrong length'
                 return None
-            d = rs.as_per_substance_dict(vals)
+            d = rs.as_per_substance_dict(wrap(vals, c.get('container')))
             if list(d.items()) != list(zip(keys, vals)):
                 return 'as_per_substance_dict does not pair values with substances in order'
             arr = list(rs.as_per_substance_array(d, dtype=object))
